@@ -89,10 +89,18 @@ fn ending(o: &CliOut) -> &'static str {
     }
 }
 
-const FAULTS: [(&str, &str, &str); 5] = [
+const FAULTS: [(&str, &str, &str); 11] = [
     // (kind, a top-level item whose first line carries the fault, stage that reports it)
     ("parse", "fn broken() -> int32 { 1 + }", "parser"),
     ("parse-non-ascii", "fn broken() -> string { \"é\" + }", "parser"),
+    // the faulty line is long and made of multi-byte characters, shifted by 0, 1, 2 bytes: whatever byte
+    // offset a message excerpt or a column computation cuts at, one of them has it inside a character
+    ("parse-long-line-3-byte-chars", "fn broken() -> string { \"日本語のメッセージです。日本語のメッセージです。日本語のメッセージです。日本語のメッセージです。日本語のメッセージです。\" + }", "parser"),
+    ("parse-long-line-3-byte-chars-shift-1", "fn broken() -> string { \"a日本語のメッセージです。日本語のメッセージです。日本語のメッセージです。日本語のメッセージです。日本語のメッセージです。\" + }", "parser"),
+    ("parse-long-line-3-byte-chars-shift-2", "fn broken() -> string { \"ab日本語のメッセージです。日本語のメッセージです。日本語のメッセージです。日本語のメッセージです。日本語のメッセージです。\" + }", "parser"),
+    ("parse-long-line-2-byte-chars", "fn broken() -> string { \"éééééééééééééééééééééééééééééééééééééééééééééééééééééééééééééééééééééééééééééééééééé\" + }", "parser"),
+    ("parse-long-line-2-byte-chars-shift-1", "fn broken() -> string { \"aéééééééééééééééééééééééééééééééééééééééééééééééééééééééééééééééééééééééééééééééééééé\" + }", "parser"),
+    ("lower-long-line-4-byte-chars", "fn broken() -> int32 { \"🙂🙂🙂🙂🙂🙂🙂🙂🙂🙂🙂🙂🙂🙂🙂🙂🙂🙂🙂🙂🙂🙂🙂🙂🙂🙂🙂🙂🙂🙂\"(2) }", "lower"),
     ("lower", "fn broken() -> int32 { 1(2) }", "lower"),
     ("typer", "fn broken() -> int32 { true }", "typer"),
     ("match-compile", "fn broken(k: int32) -> int32 { match k { 1 => 1 } }", "compile"),
@@ -188,7 +196,7 @@ impl Family for Cli {
         180
     }
     fn rule(&self) -> &'static str {
-        "the goml binary built from /repo, one process per call, no Go toolchain on PATH. (a) fault placement: 5 faults (parse error, parse error after a multi-byte literal, lowering error, type error, match-compilation error) x 3 places (entry file, second file of Main, file of an imported package) x 3 paddings of the faulty file x 3 paddings of the entry file (none / 40 ASCII lines / 40 lines of 2-, 3- and 4-byte characters), through `run`; oracle: exit status 1, no panic, no signal, at least one `error` line, and every `<file>.gom:L:C` printed names the file that contains the fault and a position on the fault's line inside that file. (b) the fixed multi-package projects (corpus, generated, ill-typed, not-a-DAG, many-diagnostics) through `build` per package in the first topological order and `link`: every process ends with status 0 or 1, `link` succeeds iff the library link succeeds and writes the same Go text, and a failing step fails where the library fails. (c) the 16 nesting ladders (depth <= 64 / 128) and the 12 length ladders (<= 512 / 2048; quick also runs two of them at 2048) through `run`: the process never dies of a signal (stack overflow) or panics. non-trivial = cases in which the binary reported at least one diagnostic; distinct = distinct case"
+        "the goml binary built from /repo, one process per call, no Go toolchain on PATH. (a) fault placement: 11 faults (parse error, parse error after a multi-byte literal, parse error on a line of 60-90 three-byte / two-byte characters shifted by 0-2 bytes, lowering error on a line of four-byte characters, lowering error, type error, match-compilation error) x 3 places (entry file, second file of Main, file of an imported package) x 3 paddings of the faulty file x 3 paddings of the entry file (none / 40 ASCII lines / 40 lines of 2-, 3- and 4-byte characters), through `run`; oracle: exit status 1, no panic, no signal, at least one `error` line, and every `<file>.gom:L:C` printed names the file that contains the fault and a position on the fault's line inside that file. (b) the fixed multi-package projects (corpus, generated, ill-typed, not-a-DAG, many-diagnostics) through `build` per package in the first topological order and `link`: every process ends with status 0 or 1, `link` succeeds iff the library link succeeds and writes the same Go text, and a failing step fails where the library fails. (c) the 16 nesting ladders (depth <= 64 / 128) and the 12 length ladders (<= 512 / 2048; quick also runs two of them at 2048) through `run`: the process never dies of a signal (stack overflow) or panics. non-trivial = cases in which the binary reported at least one diagnostic; distinct = distinct case"
     }
     fn cases(&self, tier: Tier) -> Box<dyn Iterator<Item = Value> + '_> {
         let mut v = Vec::new();
